@@ -398,7 +398,7 @@ let c07_line q id sel root blocks obs =
       if adv <> spec then incr n_dev;
       if free && adv <> spec then incr n_free_dev;
       let nsd = no_shared_depth s in
-      if nsd then incr n_nsd;
+      if nsd then incr n_nsd else prerr_endline ("outside no_shared_depth: " ^ id ^ (if adv <> spec then " (deviates)" else ""));
       if nsd && trace_text false (walk_adv current g fuel r s) <> spec then begin
         incr n_nsd_dev; prerr_endline ("no_shared_depth but current-tree model deviates: " ^ id) end
     end;
@@ -426,7 +426,11 @@ let c07_line q id sel root blocks obs =
             done;
             match !best with
             | None -> fail "spec_gap"
-            | Some m -> List.iteri (fun i nm -> if m land (1 lsl i) <> 0 then fail nm) quirk_names
+            | Some m ->
+              (* the shared counter and the dropped empty union are reconciled by the same switch (per-member
+                 wrapping); they are told apart by the declaration: an empty union and nothing else amiss *)
+              if m = 8 && nsd_rec s && not (noempty s) then fail "empty_union_dropped"
+              else List.iteri (fun i nm -> if m land (1 lsl i) <> 0 then fail nm) quirk_names
           end
         end;
         if !fails = [] then "ok" else "fail:" ^ String.concat "," (List.rev !fails) in
